@@ -368,3 +368,39 @@ def run_benign_one(repo, mutant):
 def run_benign(repo="/repo", workers=5):
     with ThreadPoolExecutor(max_workers=workers) as ex:
         return list(ex.map(lambda m: run_benign_one(repo, m), BENIGN))
+
+
+def benign_dir():
+    """behaviour-preserving refactors written by independent sub-agents, kept under /verif/benign/<name>/patch.diff"""
+    d = os.path.join(VERIF, "benign")
+    if not os.path.isdir(d):
+        return []
+    return [(n, os.path.join(d, n, "patch.diff")) for n in sorted(os.listdir(d)) if os.path.exists(os.path.join(d, n, "patch.diff"))]
+
+
+def run_benign_patch(repo, name, patch):
+    res = dict(id="benign/" + name, alarms=[])
+    tmp = tempfile.mkdtemp(prefix="bva-benignp-")
+    try:
+        _copy_tree(repo, tmp)
+        r = subprocess.run(["patch", "-p1", "-s", "-i", patch], cwd=tmp, stdout=subprocess.PIPE, stderr=subprocess.STDOUT, text=True)
+        if r.returncode != 0:
+            res["status"] = "skipped: patch does not apply (the code changed)"
+            return res
+        res["status"] = "ran"
+        for pid in ALL_PIDS:
+            rc, out = _run_check(pid, tmp, os.path.join(tmp, ".cache"))
+            if "BUILD-FAILED" in out:
+                res["status"] = "skipped: does not compile"
+                break
+            if rc != 0:
+                res["alarms"].append((pid, [l.strip() for l in out.splitlines() if l.startswith("  rule=")][:3]))
+    finally:
+        shutil.rmtree(tmp, ignore_errors=True)
+    return res
+
+
+def run_benign_dir(repo="/repo", workers=6):
+    items = benign_dir()
+    with ThreadPoolExecutor(max_workers=workers) as ex:
+        return list(ex.map(lambda it: run_benign_patch(repo, it[0], it[1]), items))
